@@ -6,3 +6,4 @@ open PgmVerif
 #print axioms PgmVerif.C06_mle_closed_form
 #print axioms PgmVerif.C06_bayes_closed_form
 #print axioms PgmVerif.C06_fitted_valid
+#print axioms PgmVerif.C06_mle_weight_scale
